@@ -194,7 +194,8 @@ def normalise_module(relpath: str, tree: ast.Module) -> list[str]:
         notes += [f"{relpath}: {n}" for n in inline_new_helpers(tree, set(known))]
     from .canon import canonicalise
 
-    canonicalise(tree)
+    g = base.get("__globals__")
+    canonicalise(tree, set(g) if g is not None else None)
     for cls_name, node in _functions(tree):
         key = f"{cls_name}.{node.name}" if cls_name else node.name
         b = base.get(key)
@@ -229,7 +230,9 @@ def generate(root: str) -> dict[str, T.Any]:
             tree = ast.parse(open(p, encoding="utf-8").read())
             from .canon import canonicalise
 
-            canonicalise(tree)
+            module_globals = sorted({t.id for st in tree.body if isinstance(st, ast.Assign) for t in st.targets if isinstance(t, ast.Name)} |
+                                    {st.target.id for st in tree.body if isinstance(st, ast.AnnAssign) and isinstance(st.target, ast.Name)})
+            canonicalise(tree, set(module_globals))
             entry: dict[str, T.Any] = {}
             names = []
             for cls_name, node in _functions(tree):
@@ -239,6 +242,7 @@ def generate(root: str) -> dict[str, T.Any]:
                 if sigs:
                     entry[key] = [[n, s] for n, s in sigs]
             entry["__functions__"] = sorted(names)
+            entry["__globals__"] = module_globals
             out[rel] = entry
     return out
 
